@@ -213,8 +213,8 @@ func vResidue(nd *vNode, pme any, pid peer.ID, topics []string) []string {
 
 var c13GaterNote string
 
-var c13RPCKinds = []string{"none", "sub", "graft", "prune", "ihave", "iwant", "idontwant", "extensions", "partial", "publish_ok", "publish_rejected", "publish_slow", "publish_dup"}
-var c13Endings = []string{"conn_close", "out_then_in_close", "out_then_in_reset", "in_then_out_close", "in_then_out_reset", "blacklist", "out_only_reset_then_conn", "in_only_reset_then_conn"}
+var c13RPCKinds = []string{"none", "sub", "graft", "prune", "ihave", "iwant", "idontwant", "extensions", "partial", "publish_ok", "publish_rejected", "publish_slow", "publish_dup", "graft_burst"}
+var c13Endings = []string{"conn_close", "out_then_in_close", "out_then_in_reset", "in_then_out_close", "in_then_out_reset", "blacklist", "out_only_reset_then_conn", "in_only_reset_then_conn", "respawn_window"}
 
 type c13Life struct {
 	router  string
@@ -260,7 +260,7 @@ func TestVerifC13Leaks(t *testing.T) {
 		if tier == "thorough" {
 			return len(enum) + 6000
 		}
-		return 500
+		return 2000
 	}, func(c *vCase) {
 		var life c13Life
 		enumerated := false
@@ -268,7 +268,7 @@ func TestVerifC13Leaks(t *testing.T) {
 			life, enumerated = enum[c.Idx], true
 			life.dial = c.Chance(0.5)
 			life.grafted = c.Chance(0.5)
-		} else if c.Tier != "thorough" && c.Idx < 250 {
+		} else if c.Tier != "thorough" && c.Idx < 1000 {
 			life, enumerated = enum[(c.Idx*37+int(c.Seed%977))%len(enum)], true
 			life.dial = c.Chance(0.5)
 			life.grafted = c.Chance(0.5)
@@ -288,6 +288,9 @@ func TestVerifC13Leaks(t *testing.T) {
 			}
 			for i, n := 0, c.Range(0, 3); i < n; i++ {
 				life.mid = append(life.mid, c13RPCKinds[c.Intn(len(c13RPCKinds))])
+			}
+			if life.ending == "respawn_window" && c.Chance(0.5) {
+				life.mid = append(life.mid, "graft_burst")
 			}
 		}
 		c.Bubble(func() {
@@ -402,6 +405,13 @@ func TestVerifC13Leaks(t *testing.T) {
 					V.Send(me, &pb.RPC{Control: &pb.ControlMessage{Extensions: &pb.ControlExtensions{PartialMessages: &b, TestExtension: &b}}})
 				case "partial":
 					V.Send(me, &pb.RPC{Partial: &pb.PartialMessagesExtension{TopicID: &tt, GroupID: []byte(fmt.Sprintf("g%d", seq)), PartialMessage: []byte("pm"), PartsMetadata: []byte{1}}})
+				case "graft_burst":
+					// the victim prunes the node, then GRAFTs forty times inside its own backoff: forty PRUNE replies for an
+					// outbound queue of thirty-two (some are kept for retry when nobody serves the queue)
+					V.Send(me, vPruneRPC(60, "t"))
+					for i := 0; i < 40; i++ {
+						V.Send(me, vGraftRPC("t"))
+					}
 				case "publish_ok":
 					V.Send(me, vMsgRPC(vSignedMsg(V.key, "t", vSeqno(seq), []byte(fmt.Sprintf("ok-%d", seq)))))
 				case "publish_rejected":
@@ -466,8 +476,31 @@ func TestVerifC13Leaks(t *testing.T) {
 			case "in_only_reset_then_conn":
 				V.CloseOut(me, true)
 				vSettle(30 * time.Millisecond)
+			case "respawn_window":
+				// the node's outbound stream is reset one to three times (the writer is respawned at once the first time, after
+				// a growing delay afterwards); the connection goes away while a respawn is waiting, being opened, or refused
+				for i, k := 0, c.Range(1, 3); i < k; i++ {
+					V.CloseIn(me, true)
+					if i < k-1 {
+						vSettle(time.Duration(c.Range(0, 150)) * time.Millisecond)
+					} else {
+						vSettle(time.Duration(c.Range(0, 20)) * time.Millisecond)
+					}
+				}
+				switch c.Intn(4) {
+				case 0:
+					V.Refuse(true) // the next stream is accepted and reset at once
+				case 1, 2:
+					V.Unhandle() // the next stream fails in protocol negotiation
+				}
+				for _, k := range life.mid {
+					send(k)
+				}
+				vSettle(time.Duration(c.Range(0, 300)) * time.Millisecond)
 			}
-			vSettle(50 * time.Millisecond)
+			if life.ending != "respawn_window" {
+				vSettle(50 * time.Millisecond)
+			}
 			r.n.Disconnect(me, vid)
 			V.ForgetStreams()
 			// ---- every retention period: score 10s, gater 10s+decay, backoff 5s + 15-tick sweep + slack, seen 10s + 60s sweep,
